@@ -59,20 +59,21 @@ def llm_fn_for(path):
 
 
 def explore_world(task):
-    version, order, dialog, exceptions, turns = task
+    version, order, dialog, exceptions, turns = task[:5]
     if version == "2.x":
         from vf.props import c01_v2
         return c01_v2.explore_world(task)
     res = {"worlds": 1, "turns": 0, "conversations": 0, "rejections": 0, "rewrites": 0, "llm_calls": 0,
            "rail_calls": 0, "viol": []}
+    param = len(task) > 5 and task[5] == "param"
     try:
         world = rw.v1_world(in_order=order, out_order=("out1",), dialog=(dialog is True), exceptions=exceptions,
-                            extra_yaml=("passthrough: True\n" if dialog == "passthrough" else ""))
+                            extra_yaml=("passthrough: True\n" if dialog == "passthrough" else ""), param_rails=param)
     except Exception as e:
         res["viol"].append((f"world-rejected:v1", repr(e), {"task": list(map(str, task))}))
         return res
-    info0 = {"engine": "E3-world", "prop": "C01", "version": version, "order": list(order), "dialog": dialog, "exceptions": exceptions}
-    outs = outcomes(order)
+    info0 = {"engine": "E3-world", "prop": "C01", "version": version, "order": list(order), "dialog": dialog, "exceptions": exceptions, "param_rails": param}
+    outs = outcomes(order, allow_rewrite=not param)
     paths = ["predef", "llm"] if dialog is True else ["general"]
     nonce = [0]
 
@@ -112,7 +113,7 @@ def explore_world(task):
             res["rail_calls"] += len(in_calls)
 
             def bad(sig, what):
-                res["viol"].append((f"{sig}:v1:{'passthrough' if dialog == 'passthrough' else ('dialog' if dialog else 'nodialog')}", what, info))
+                res["viol"].append((f"{sig}:v1:{'passthrough' if dialog == 'passthrough' else ('dialog' if dialog else 'nodialog')}{':parameterised-rails' if param else ''}", what, info))
 
             if turn.exc is not None:
                 bad("generate-raised", f"{turn.exc!r}")
@@ -132,6 +133,10 @@ def explore_world(task):
             if rejected_by:
                 res["rejections"] += 1
                 want = f"EXC:BLOCKED-{rejected_by}" if exceptions else f"REFUSED-{rejected_by}"
+                if param:
+                    # (Colang 1.0 does not interpolate the `{$model}` of the library rail's exception message)
+                    want = ("EXC:Input not allowed. The input was blocked by the 'content safety check input $model='{$model}'' flow."
+                            if exceptions else "I'm sorry, I can't respond to that.")
                 if turn.text != want:
                     bad("reply-is-not-the-refusal", f"rail {rejected_by} rejected; reply {turn.text!r}, expected {want!r}")
                 if turn.llm_calls:
@@ -192,6 +197,13 @@ def tasks(tier):
                         continue
                     seen.add((order, dialog, exc))
                     out.append(("1.0", order, dialog, exc, turns))
+    # one rail flow configured several times with different parameters
+    for order in (("in1", "in2"), ("in2", "in1"), ("in1", "in2", "in3")):
+        for dialog in (False, True):
+            for exc in (False, True):
+                if len(order) == 3 and (tier == "quick" or exc):
+                    continue
+                out.append(("1.0", order, dialog, exc, 2, "param"))
     try:
         from vf.props import c01_v2
         out.extend(c01_v2.tasks(tier))
@@ -233,7 +245,7 @@ def replay(rp):
     if rp.get("version") == "2.x":
         from vf.props import c01_v2
         return c01_v2.replay(rp)
-    world = rw.v1_world(in_order=tuple(rp["order"]), out_order=("out1",), dialog=(rp["dialog"] is True), exceptions=rp["exceptions"],
+    world = rw.v1_world(in_order=tuple(rp["order"]), out_order=("out1",), dialog=(rp["dialog"] is True), exceptions=rp["exceptions"], param_rails=rp.get("param_rails", False),
                         extra_yaml=("passthrough: True\n" if rp["dialog"] == "passthrough" else ""))
     msgs = []
     for step in rp["history"]:
